@@ -446,31 +446,40 @@ UUpdAttrs(S, n, key, val) == Finish(PUpdAttrs(S, n, key, val), TRUE, 0)
 \* `old` is the array before the stroke.  The action is told, per previous label,
 \* which pixels changed.
 PaintedSeg(S, stroke, v) == SetPix(S, stroke, v)
-RECURSIVE UPaintOld(_, _, _, _)
-UPaintOld(r, labels, stroke, old) ==
+\* sequencing of the SUB-ACTIONS of a group: a sub-action that raises is not recorded in
+\* the group (its constructor never returned), whatever it had already applied
+ThenSub(r, F(_)) == IF ~r.ok THEN r
+                    ELSE LET q == F(r.s)
+                         IN IF q.ok THEN [s |-> q.s, ok |-> TRUE, err |-> "ok", ps |-> r.ps \o q.ps]
+                            ELSE [s |-> q.s, ok |-> FALSE, err |-> q.err, ps |-> r.ps]
+RECURSIVE UPaintOld(_, _, _, _, _)
+UPaintOld(r, labels, stroke, old, dord) ==
     IF labels = <<>> \/ ~r.ok THEN r
     ELSE LET l  == Head(labels)
              px == {q \in stroke : old[q] = l}
              t  == FrameOf(CHOOSE q \in px : TRUE)
              r1 == IF MaskIn(r.s, l, t) = {}
-                   THEN Then(r, LAMBDA s : Sub(UDelNodeBody(s, l, px, FALSE, 1)))
-                   ELSE Then(r, LAMBDA s : PUpdSeg(s, l, px, FALSE))
-         IN UPaintOld(r1, Tail(labels), stroke, old)
+                   THEN ThenSub(r, LAMBDA s : Sub(UDelNodeBody(s, l, px, FALSE, dord)))
+                   ELSE ThenSub(r, LAMBDA s : PUpdSeg(s, l, px, FALSE))
+         IN UPaintOld(r1, Tail(labels), stroke, old, dord)
 \* S already carries the painted array; old = S.seg before painting
 UPaint(S, old, stroke, v, curTid, force, ord) ==
     IF ~HasSeg THEN Finish(Fail(S, "ValueError"), TRUE, 0)
     ELSE
       LET labels == SortedSeq({old[q] : q \in stroke} \ {0})
           t      == FrameOf(CHOOSE q \in stroke : TRUE)
-          \* fix F10: a new node that would be refused is refused before any edit
           newNode == v # 0 /\ ~Has(S, v)
           a == [n |-> v, t |-> t, tid |-> curTid, pos |-> NoPos, cust |-> None,
                 force |-> force, px |-> stroke, pxnone |-> FALSE]
-          r1 == UPaintOld(Ok(S, <<>>), labels, stroke, old)
-          r2 == IF v = 0 \/ stroke = {} THEN r1
-                ELSE IF Has(r1.s, v) /\ r1.ok THEN Then(r1, LAMBDA s : PUpdSeg(s, v, stroke, TRUE))
-                ELSE Then(r1, LAMBDA s : Sub(UAddNodeBody(s, a, ord)))
-      IN Finish(r2, TRUE, IF r2.ok /\ newNode /\ v # 0 /\ stroke # {} THEN v ELSE 0)
+          r1 == UPaintOld(Ok(S, <<>>), labels, stroke, old, IF ord <= 2 THEN 1 ELSE 2)
+          r2 == IF v = 0 \/ stroke = {} \/ ~r1.ok THEN r1
+                ELSE IF Has(r1.s, v) THEN ThenSub(r1, LAMBDA s : PUpdSeg(s, v, stroke, TRUE))
+                ELSE ThenSub(r1, LAMBDA s : Sub(UAddNodeBody(s, a, IF ord \in {1, 3} THEN 1 ELSE 2)))
+          \* fix F10: a refused update inverts the sub-actions it had completed
+          r3 == IF ~r2.ok /\ Fix("F10")
+                THEN LET rb == InvGroup(r2.s, r2.ps) IN [s |-> rb.s, ok |-> FALSE, err |-> r2.err, ps |-> <<>>]
+                ELSE r2
+      IN Finish(r3, TRUE, IF r3.ok /\ newNode /\ stroke # {} THEN v ELSE 0)
 
 (***************************************************************************)
 (* History: ActionHistory.undo / redo, Tracks.undo / redo                  *)
